@@ -55,15 +55,30 @@ def lane_ids(regs, lane, interp, vgpr):
     return [v0, v1 if vgpr > 0 else None, v2 if vgpr > 1 else None]
 
 
+SGPR_SIZES = [4, 2, 2, 2, 2, 2, 1, 1, 1, 1, 1, 1, 1]   # dwords of the inputs, in ABI order (bit k of 'sgpr')
+DEFAULT_SGPR = 1 << 3 | 1 << 10 | 1 << 11 | 1 << 12
+
+
+def abi_slot(mask, k):
+    """SGPR number of input k: the dwords of the enabled inputs before it (None if disabled)"""
+    if not (mask >> k) & 1:
+        return None
+    return sum(SGPR_SIZES[j] for j in range(k) if (mask >> j) & 1)
+
+
 def executed(case, mode, interp):
     """multiset of global IDs (projected on the components the hardware provides) over
     all enabled lanes, as initialised by `mode` (emu / tim)"""
     S, vgpr = case['s'], case['vgpr']
     comps = [0, 1, 2] if interp == 'v5' else [d for d in range(3) if d == 0 or vgpr >= d]
+    mask = case.get('sgpr', DEFAULT_SGPR)
+    slots = [abi_slot(mask, 10 + d) for d in range(3)]
+    # a coordinate is known to the kernel only if both its work-group ID and its work-item ID are provided
+    comps = [d for d in comps if slots[d] is not None]
     have = collections.Counter()
     for w in case['wgs']:
         for f in w['wfs']:
-            wgid = f[mode + '_wg']
+            wgid = [f[mode + '_s'][slots[d]] if slots[d] is not None else None for d in range(3)]
             for lane in range(64):
                 if (f['exec'] >> lane) & 1:
                     ids = lane_ids(f[mode], lane, interp, vgpr)
@@ -131,7 +146,7 @@ def monitor(case):
 
 
 def strip(case):
-    return {k: case[k] for k in ('g', 's', 'filter', 'ver', 'vgpr', 'skip', 'sample') if k in case}
+    return {k: case[k] for k in ('g', 's', 'filter', 'ver', 'vgpr', 'sgpr', 'skip', 'sample') if k in case}
 
 
 def run_impl(binary, cases=None, seed=1, n=100):
@@ -460,6 +475,9 @@ def main(argv):
                                  if f['exec'] & (f['exec'] + 1) != 0),
         'rows_not_dividing_64': sum(1 for c in cases if 64 % c['s'][0] != 0),
         'v5_cases': sum(1 for c in cases if c['ver'] == 5),
+        'wgid_sgpr_enable_histogram_xyz': {format(k, '03b')[::-1]: v for k, v in sorted(collections.Counter((c.get('sgpr', DEFAULT_SGPR) >> 10) & 7 for c in cases).items())},
+        'distinct_sgpr_enable_masks': len({c.get('sgpr', DEFAULT_SGPR) for c in cases}),
+        'cases_with_more_than_one_wg_in_every_dimension': sum(1 for c in cases if all(nwg(c['g'][d], c['s'][d]) > 1 for d in range(3))),
         'skip_cases': sum(1 for c in cases if c.get('skip')),
         'model_mismatches': len(mism), 'monitor_failures': len(bad),
     })
